@@ -152,7 +152,35 @@ class C11(ProgProp):
                         if rcpt == [cid]:
                             pass
                         elif rcpt == []:
-                            known.append(f'out-event {m.group(1)} raised while {cid} held the claim reached nobody (a delayed Deselect of another client cleared the selection)')
+                            # who cleared the selection?  The recorded race D-9c is exactly: another client x is inside
+                            # its RELEASE (between `t x release-begin` and `t x release-end`; the selector logs
+                            # `Deselect/x` at entry, the reset happens later under the lock) at some moment after the
+                            # holder's own `Select/<cid>` log line and before the lost out-event.  Anything else - a
+                            # Deselect that is not part of a release (e.g. after a refused claim), or no foreign
+                            # release in flight at all - is not the recorded finding.
+                            sel_at = a
+                            for k in range(a, -1, -1):
+                                if re.match(r'log (?:.*/)?Select/%s$' % cid, tr[k]):
+                                    sel_at = k
+                                    break
+                            foreign_release = False
+                            open_rel = {}
+                            for k in range(0, i):
+                                mm = re.match(r't (\w+) release-begin$', tr[k])
+                                if mm:
+                                    open_rel[mm.group(1)] = k
+                                mm = re.match(r't (\w+) release-end$', tr[k])
+                                if mm and mm.group(1) in open_rel:
+                                    if mm.group(1) != cid and k > sel_at:
+                                        foreign_release = True
+                                    del open_rel[mm.group(1)]
+                            if any(x != cid for x in open_rel):
+                                foreign_release = True
+                            if foreign_release:
+                                known.append(f'out-event {m.group(1)} raised while {cid} held the claim reached nobody (a delayed Deselect of another client cleared the selection)')
+                            else:
+                                failed.append(f'out-event {m.group(1)} raised while {cid} held the claim reached nobody although no other client '
+                                              'was releasing: the selection was cleared outside a release')
                         else:
                             failed.append(f'out-event {m.group(1)} raised while {cid} held the claim was delivered to {rcpt}')
                 i = j
